@@ -12,8 +12,8 @@ from math import comb
 
 import networkx as nx
 
-from ..common import Result, sut, digest
-from ..exactpoly import P, percolation_poly, percolation_counts, percolation_value
+from ..common import Result, sut, digest, SutRaised
+from ..exactpoly import P, percolation_poly, percolation_counts, percolation_value, ShadowUnsupported
 
 ID = "C16"
 RULE = ("clique equation tau = 2..6 (quick) / 2..7 (thorough) with distinct symbolic neighbour values, and float spot checks with heterogeneous "
@@ -22,11 +22,18 @@ RULE = ("clique equation tau = 2..6 (quick) / 2..7 (thorough) with distinct symb
         "vertex subsets containing the focal vertex, all k; non-trivial = tau >= 3 / n >= 4 / n >= 3 / induced subgraph with a cycle; "
         "distinct = SHA-1 of the concrete arguments")
 ASSUMPTIONS = ["polynomial identity after full expansion", "connected labelled graph counts from the recurrence C_n(y) = (1+y)^C(n,2) - sum_j C(n-1,j-1) C_j(y) (1+y)^C(n-j,2)"]
-HEADLINE = ["clique_identities", "cycle_identities", "float_checks", "Q_values", "QQ_values", "counter_checks", "oeis_anchor"]
-REQUIRED = {t: {"clique_identities": 4, "cycle_identities": 8, "Q_values": 150, "QQ_values": 20, "counter_checks": 200, "oeis_anchor": 1,
+HEADLINE = ["clique_identities", "cycle_identities", "float_checks", "Q_values", "QQ_values", "counter_checks", "oeis_anchor", "shadow_unsupported"]
+REQUIRED = {t: {"clique_identities_or_numeric": 4, "cycle_identities_or_numeric": 8, "Q_values": 150, "QQ_values": 20, "counter_checks": 200, "oeis_anchor": 1,
                 "float_checks": 50} for t in ("quick", "thorough")}
 SHARD_TIMEOUT = {"quick": 900, "thorough": 10800}
 OEIS_N6 = [1, 15, 105, 455, 1365, 2997, 4945, 6165, 5700, 3660, 1296, 0]   # connected labelled graphs, 6 vertices, 15..4 edges
+
+
+def finalize(counters, sets, tier):
+    # the polynomial identity or, where the tree computes in a way the shadow values cannot follow, the widened numeric part
+    counters["clique_identities_or_numeric"] = counters.get("clique_identities", 0) + counters.get("shadow_unsupported", 0)
+    counters["cycle_identities_or_numeric"] = counters.get("cycle_identities", 0) + counters.get("shadow_unsupported", 0)
+    return {}
 
 
 def gen_cases(tier, seed):
@@ -97,19 +104,27 @@ def run_case(case):
     if k == "clique":
         tau = case["tau"]
         Hs = [P.var("u%d" % j) for j in range(1, tau)]
-        got = sut("clique_equation(poly)", clique_equation, tau, P.var("phi"), Hs)
         g = nx.complete_graph(tau)
         want = percolation_poly(list(g.nodes()), list(g.edges()), 0)
-        res.count("clique_identities")
-        got = got if isinstance(got, P) else P.const(got)
+        nfloat = 12
+        try:
+            got = sut("clique_equation(poly)", clique_equation, tau, P.var("phi"), Hs)
+            res.count("clique_identities")
+            got = got if isinstance(got, P) else P.const(got)
+        except SutRaised as e:
+            if not isinstance(e.exc, ShadowUnsupported):
+                raise
+            # the tree computes in a way exact polynomials cannot follow: numeric part only, with many more points
+            res.count("shadow_unsupported")
+            got, nfloat = want, 150
         if got.t != want.t:
             res.violate("clique-equation-is-not-the-percolation-expectation", tau=tau, differing_terms=got.diff_sample(want),
                         terms_got=got.nterms(), terms_want=want.nterms())
         else:
             counts, m = percolation_counts(list(g.nodes()), list(g.edges()), 0)
-            for _ in range(12):
-                phi = rng.choice([0.0, 1.0, rng.random()])
-                us = {j: rng.random() for j in range(1, tau)}
+            for _ in range(nfloat):
+                phi = rng.choice([0.0, 1.0, rng.random(), rng.random()])
+                us = {j: rng.choice([0.0, 1.0, rng.random(), rng.random(), rng.random()]) for j in range(1, tau)}
                 v = sut("clique_equation(float)", clique_equation, tau, phi, [us[j] for j in range(1, tau)])
                 w = percolation_value(counts, m, 0, phi, us)
                 res.count("float_checks")
@@ -124,17 +139,24 @@ def run_case(case):
         res.sample = {"kind": k, "tau": tau, "terms": want.nterms()}
     elif k == "cycle":
         n = case["n"]
-        got = sut("chordless_cycle_equation(poly)", chordless_cycle_equation, n, P.var("u"), P.var("phi"))
         g = nx.cycle_graph(n)
         want = percolation_poly(list(g.nodes()), list(g.edges()), 0, common_u="u")
-        res.count("cycle_identities")
-        got = got if isinstance(got, P) else P.const(got)
+        nfloat = 6
+        try:
+            got = sut("chordless_cycle_equation(poly)", chordless_cycle_equation, n, P.var("u"), P.var("phi"))
+            res.count("cycle_identities")
+            got = got if isinstance(got, P) else P.const(got)
+        except SutRaised as e:
+            if not isinstance(e.exc, ShadowUnsupported):
+                raise
+            res.count("shadow_unsupported")
+            got, nfloat = want, 100
         if got.t != want.t:
             res.violate("cycle-equation-is-not-the-percolation-expectation", n=n, differing_terms=got.diff_sample(want))
         else:
             counts, m = percolation_counts(list(g.nodes()), list(g.edges()), 0)
-            for _ in range(6):
-                phi, u = rng.random(), rng.random()
+            for _ in range(nfloat):
+                phi, u = rng.choice([0.0, 1.0, rng.random(), rng.random()]), rng.choice([0.0, 1.0, rng.random(), rng.random()])
                 v = sut("chordless_cycle_equation(float)", chordless_cycle_equation, n, u, phi)
                 w = percolation_value(counts, m, 0, phi, {j: u for j in g.nodes()})
                 res.count("float_checks")
